@@ -90,7 +90,7 @@ def main():
         # public entry points: transforms
         a = tm([rnd.uniform(-2, 2) for _ in range(6)]); b = tm([rnd.uniform(-2, 2) for _ in range(6)])
         call('tm.matmul', lambda: a @ b); call('tm.inv', lambda: a.inv()); call('tm.l2g', fsr.localToGlobal, a, b); call('tm.g2l', fsr.globalToLocal, a, b)
-        call('tm.adjoint', lambda: a.adjoint()); call('fsr.twistToGoal', lambda: fsr.twistFromTransform(a) if hasattr(fsr, 'twistFromTransform') else 0)
+        call('tm.exp6', lambda: a.exp6()); call('tm.adjoint', lambda: a.adjoint()); call('fsr.twistToGoal', lambda: fsr.twistFromTransform(a) if hasattr(fsr, 'twistFromTransform') else 0)
         # public entry points: arms, every link / joint index (URDF arms carry link and joint homes)
         from basic_robotics.kinematics.arm_model import loadArmFromURDF
         if rep % 3 == 0:
